@@ -257,6 +257,11 @@ Definition job_order_fn (ts : layout (item -> item -> Z)) := order_fn ts by_time
 Definition queue_order_fn (ts : layout (item -> item -> Z)) := order_fn ts by_time_uid.
 Definition task_order_fn (ts : layout (item -> item -> Z)) := order_fn ts compare_task.
 
+(* SubJobOrderFn 689-712: same walk (flag EnabledSubJobOrder); the built-in
+   tie-break is (MatchIndex, UID), i.e. by_time_uid with MatchIndex carried in
+   the i_ctime field *)
+Definition sub_job_order_fn (ts : layout (item -> item -> Z)) := order_fn ts by_time_uid.
+
 (* VictimQueueOrderFn: registered victim comparators (no enable flag, the
    preemptor queue is a fixed third argument already applied in [vts]), then
    the NEGATION of QueueOrderFn *)
@@ -330,6 +335,18 @@ Definition cmp_sla (l r : jkeys) : Z :=
 (* proportion.go 268-286: queue priority (difference of the two int32), then share *)
 Definition cmp_proportion (l r : jkeys) : Z :=
   if negb (k_prio l =? k_prio r) then k_prio r - k_prio l else cmp_share l r.
+
+(* which order function each shipped plugin registers: role 0 = JobOrderFn
+   (priority, gang, drf, sla), role 2 = TaskOrderFn (priority only), role 3 =
+   SubJobOrderFn (priority, gang); role 1 = QueueOrderFn (proportion) *)
+Definition plugin_registers (role kind : Z) : bool :=
+  match role, kind with
+  | 0, 1 | 0, 2 | 0, 3 | 0, 4 => true
+  | 1, 5 => true
+  | 2, 1 => true
+  | 3, 1 | 3, 2 => true
+  | _, _ => false
+  end.
 
 Definition real_cmp (kind : Z) : jkeys -> jkeys -> Z :=
   match kind with
